@@ -34,7 +34,7 @@ func chanSend(i *interpreter, ch, v value) {
 		panic(unsupported{"send on nil channel (blocks forever)"})
 	}
 	if c.closed {
-		panic(targetPanic{rtError("send on closed channel")})
+		panic(targetPanic{v: rtError("send on closed channel")})
 	}
 	if len(c.buf) >= c.cap && c.cap > 0 {
 		panic(unsupported{"send on full channel (would block)"})
@@ -68,10 +68,10 @@ func chanRecv(i *interpreter, instr *ssa.UnOp, ch value) value {
 func chanClose(i *interpreter, ch value) {
 	c := ch.(*channel)
 	if c == nil {
-		panic(targetPanic{rtError("close of nil channel")})
+		panic(targetPanic{v: rtError("close of nil channel")})
 	}
 	if c.closed {
-		panic(targetPanic{rtError("close of closed channel")})
+		panic(targetPanic{v: rtError("close of closed channel")})
 	}
 	c.closed = true
 }
